@@ -32,3 +32,21 @@ Fixpoint bset (m : list bool) (a : float) (base : vec) : vec :=
 Fixpoint np_cumsum_from (acc : vec) (rs : list vec) : list vec :=
   match rs with [] => [] | r :: rs' => let a := vadd acc r in a :: np_cumsum_from a rs' end.
 Definition np_cumsum (rs : list vec) : list vec := match rs with [] => [] | r :: rs' => r :: np_cumsum_from r rs' end.
+
+(* np.nanmin of a non-empty 1-D array: np.fmin.reduce (scalar loop, first element as the start; a NaN operand is ignored).
+   Of an empty array NumPy raises; the translator guards every use by the emptiness test of the source. *)
+Definition np_fmin (a b : float) : float := if (PrimFloat.leb a b || is_nan b)%bool then a else b.
+Definition np_nanmin (l : vec) : float := match l with [] => nan | x_ :: r_ => fold_left np_fmin r_ x_ end.
+
+(* (a * Z) @ d for the selection matrix Z of get_freev: Z = lil_matrix((n, k)); Z[rows, arange(k)] = 1.  SciPy's compressed
+   matvec kernels (csr_matvec / csc_matvec) accumulate data * d[col] into a zero-initialised y; row i has its one stored entry
+   (a * 1.0) in column j exactly when rows[j] = i, hence y[i] = 0 + (a * 1.0) * d[j], and 0 for a row without entry.
+   `a1` is the stored datum (1.0 * a).  Validated bit for bit by the `fsubspace` correspondence. *)
+Fixpoint pos_of (i : nat) (rows : list nat) : option nat :=
+  match rows with [] => None | r_ :: rs_ => if Nat.eqb r_ i then Some 0 else option_map S (pos_of i rs_) end.
+Definition sel_matvec (a1 : float) (n : nat) (rows : list nat) (d : vec) : vec :=
+  map (fun i_ => match pos_of i_ rows with Some j_ => PrimFloat.add 0%float (PrimFloat.mul a1 (nth j_ d 0%float)) | None => 0%float end) (seq 0 n).
+
+(* r -= w (in place: the shape of r is kept) *)
+Fixpoint vinplace (f : float -> float -> float) (a b : vec) : vec :=
+  match a, b with x_ :: a', y_ :: b' => f x_ y_ :: vinplace f a' b' | _, _ => a end.
